@@ -263,8 +263,47 @@ fn probe_data<'a, D: SystemData<'a>>(world: &'a World, name: &str) -> Verdict {
 #[derive(Clone, Debug, Serialize, Deserialize, Hash, PartialEq, Eq)]
 pub struct ProbeCase(pub String);
 
+/// A system may clone its `ReadStorage` handle (e.g. to hand a copy to a helper): the clone is a
+/// handle like any other, so while either copy lives the storage stays borrowed shared, exactly
+/// as declared, and everything is free once both are gone - whichever is dropped first.
+fn probe_clone<C: specs::Component>(world: &World, name: &str) -> Verdict {
+    let sid = ResourceId::new::<MaskedStorage<C>>();
+    let eid = ResourceId::new::<EntitiesRes>();
+    for clone_first in [true, false] {
+        let original = <ReadStorage<C> as SystemData>::fetch(world);
+        let copy = original.clone();
+        let both = all_resources(world);
+        let (first, second) = if clone_first { (copy, original) } else { (original, copy) };
+        drop(first);
+        let one = all_resources(world);
+        for (stage, state) in [("both the handle and its clone are", both), ("one of the handle and its clone is", one)] {
+            for (id, rname, b) in state {
+                let want = if id == sid || id == eid { Borrow::Shared } else { Borrow::Free };
+                if b != want {
+                    // the borrow bookkeeping is off: do not run the remaining guard's destructor
+                    std::mem::forget(second);
+                    return Err(Violation::new("C11", "declaration-mismatch", format!(
+                        "{} cloned (clone dropped first: {}): while {} alive the resource {} is borrowed {:?} but reads()/writes() declare {:?}",
+                        name, clone_first, stage, rname, b, want)));
+                }
+            }
+        }
+        drop(second);
+        for (_, rname, b) in all_resources(world) {
+            ensure!("C11", "borrow-leaked", b == Borrow::Free, "{} cloned: resource {} still borrowed {:?} after the handle and its clone were dropped", name, rname, b);
+        }
+    }
+    Ok(())
+}
+
 fn probe_named(name: &str) -> Verdict {
     let w = new_world();
+    macro_rules! c {
+        ($($k:ident),*) => {{
+            $( if name == concat!("ReadStorage<", stringify!($k), ">") { probe_clone::<$k>(&w, name)?; } )*
+        }};
+    }
+    c!(K0, K1, K2, K3, K4, K5, K6);
     macro_rules! p {
         ($($t:ty),*) => {{
             $( if name == stringify!($t) { return probe_data::<$t>(&w, name); } )*
